@@ -134,11 +134,14 @@ func (r *reader) ConsumeByKey(key []byte, keyHash []byte, offset, maxCount int64
 		return OffsetInvalid, nil, err
 	}
 
+	// the next offset is taken before the keys are looked up: in the writing segment a
+	// publish in between would otherwise be stepped over, without returning its messages
+	nextOffset, err := ix.GetNextOffset()
+	if err != nil {
+		return OffsetInvalid, nil, err
+	}
+
 	if offset == OffsetNewest {
-		nextOffset, err := ix.GetNextOffset()
-		if err != nil {
-			return OffsetInvalid, nil, err
-		}
 		return nextOffset, nil, nil
 	}
 
@@ -147,10 +150,6 @@ func (r *reader) ConsumeByKey(key []byte, keyHash []byte, offset, maxCount int64
 	case nil:
 		break
 	case index.ErrKeyNotFound:
-		nextOffset, err := ix.GetNextOffset()
-		if err != nil {
-			return OffsetInvalid, nil, err
-		}
 		return nextOffset, nil, nil
 	default:
 		return OffsetInvalid, nil, err
@@ -180,10 +179,6 @@ func (r *reader) ConsumeByKey(key []byte, keyHash []byte, offset, maxCount int64
 	}
 
 	if len(msgs) == 0 {
-		nextOffset, err := ix.GetNextOffset()
-		if err != nil {
-			return OffsetInvalid, nil, err
-		}
 		return nextOffset, nil, nil
 	}
 
